@@ -62,9 +62,9 @@ for (ty, skipb, lens, fstarts, ctxs, cstarts) in DEFS:
         for s in fstarts:
             if s > n: continue
             msk = n if skipb else 0
-            add('spec_%s_n%d_s%d' % (short, n, s), max(n + 4, 6), 'attempt_vs_spec_sk::<%s, %d>(&any(), %d, %d, false)' % (ty, n, s, msk), d=short, kind='spec', n=n, s=s, sym=n)
+            add('spec_%s_n%d_s%d' % (short, n, s), max(n + 3, 4), 'attempt_vs_spec_sk::<%s, %d>(&any(), %d, %d, false)' % (ty, n, s, msk), d=short, kind='spec', n=n, s=s, sym=n)
             if n <= 2 and s == 0:
-                add('specc_%s_n%d_s%d' % (short, n, s), max(n + 4, 6), 'attempt_vs_spec_sk::<%s, %d>(&any(), %d, %d, true)' % (ty, n, s, msk), d=short, kind='specc', n=n, s=s, sym=n)
+                add('specc_%s_n%d_s%d' % (short, n, s), max(n + 3, 4), 'attempt_vs_spec_sk::<%s, %d>(&any(), %d, %d, true)' % (ty, n, s, msk), d=short, kind='specc', n=n, s=s, sym=n)
     seen = set()
     for c in ctxs:
         bs = ctx_bytes(c)
@@ -76,7 +76,7 @@ for (ty, skipb, lens, fstarts, ctxs, cstarts) in DEFS:
             name = 'ctx_%s_%s_s%d' % (short, ctx_name(c), s)
             if name in seen: continue
             seen.add(name)
-            add(name, max(len(bs) + 4, 6), 'attempt_context::<%s, %d>([%s], %d, %d, false)' % (ty, len(bs), arr, s, nsk), d=short, kind='ctx', n=len(bs), s=s, sym=bs.count(None), ctx=c)
+            add(name, max(len(bs) + 3, 4), 'attempt_context::<%s, %d>([%s], %d, %d, false)' % (ty, len(bs), arr, s, nsk), d=short, kind='ctx', n=len(bs), s=s, sym=bs.count(None), ctx=c)
 
 # skeletons: concrete skip bytes, '?' = symbolic non-skip byte
 SKEL = [
@@ -91,7 +91,7 @@ for (ty, pred, skels, starts) in SKEL:
         for s in starts:
             if s > len(bs): continue
             for cov in (False, True):
-                add('skel%s_%s_%s_s%d' % ('c' if cov else '', short, ctx_name(sk), s), max(len(bs) + 4, 6),
+                add('skel%s_%s_%s_s%d' % ('c' if cov else '', short, ctx_name(sk), s), max(len(bs) + 3, 4),
                     'attempt_skeleton::<%s, %d>([%s], %d, %s, %s)' % (ty, len(bs), arr, s, pred, 'true' if cov else 'false'),
                     d=short, kind='skelc' if cov else 'skel', n=len(bs), s=s, sym=bs.count(None), ctx=sk)
 
@@ -110,7 +110,7 @@ for (a, b, u8_, ctxs) in TWINS:
     sa, sb = a.split('::')[-1], b.split('::')[-1]
     for c in ctxs:
         bs, arr = ctx_arr(c)
-        add('twin_%s_%s_%s_s0' % (sa, sb, ctx_name(c)), max(len(bs) + 4, 6),
+        add('twin_%s_%s_%s_s0' % (sa, sb, ctx_name(c)), max(len(bs) + 3, 4),
             'twins_agree_ctx::<%s, %s, %d>([%s], 0, %s)' % (a, b, len(bs), arr, 'true' if u8_ else 'false'),
             d=sa, kind='twin', n=len(bs), s=0, sym=bs.count(None), ctx=c, other=sb)
 MODES = [
@@ -121,7 +121,7 @@ for (a, b, ctxs) in MODES:
     sa, sb = a.split('::')[-1], b.split('::')[-1]
     for c in ctxs:
         bs, arr = ctx_arr(c)
-        add('modes_%s_%s_%s_s0' % (sa, sb, ctx_name(c)), max(len(bs) + 4, 6),
+        add('modes_%s_%s_%s_s0' % (sa, sb, ctx_name(c)), max(len(bs) + 3, 4),
             'modes_agree::<%s, %s, %d>([%s], 0)' % (a, b, len(bs), arr), d=sa, kind='modes', n=len(bs), s=0, sym=bs.count(None), ctx=c, other=sb)
 PART = [  # (T, contexts, start)  -- every split point k < N
     ('twins::Q1', ['.?', '..?', '...?', ' .?', '. ?', '??', '???', '.. ?'], 0),
@@ -136,7 +136,7 @@ for (t, ctxs, st) in PART:
     for c in ctxs:
         bs, arr = ctx_arr(c)
         for k in range(st, len(bs)):
-            add('part_%s_%s_k%d' % (short, ctx_name(c), k), max(len(bs) + 4, 6),
+            add('part_%s_%s_k%d' % (short, ctx_name(c), k), max(len(bs) + 3, 4),
                 'partial_ctx::<%s, %d, %d>([%s], %d)' % (t, len(bs), k, arr, st), d=short, kind='part', n=len(bs), s=st, sym=bs.count(None), ctx=c, k=k)
 out.append('}')
 dst = sys.argv[1] if len(sys.argv) > 1 else 'src/harness_list.rs'
